@@ -1,3 +1,8 @@
+(* C11: every modelled I/O fault (Fault.v) is contained. Three of them used to be refuted here; the code was
+   repaired and Fault.v follows it:
+   - F9  (commit e3d3ed5 of the code): a failed index dump puts the headers back into the in-memory index;
+   - F15 (commit 20e4a83): close_active_blob syncs the blob while it still is the active one;
+   - F1  (commit 62103db): a failed blob creation during rotation is logged, the worker carries on. *)
 Require Import Pearl.Base.Prelude Pearl.Storage.Model Pearl.Storage.Spec Pearl.Storage.Inv Pearl.Storage.ReadProofs
                Pearl.Storage.InvProofs Pearl.Storage.Theorems Pearl.Storage.Fault.
 
@@ -7,42 +12,122 @@ Lemma append_failure_contained K cfg ops k :
   get_latest_entry (append_fails (reach K cfg ops)) k None = get_latest_entry (reach K cfg ops) k None.
 Proof. split; reflexivity. Qed.
 
-(* a failed index dump leaves the log intact (the bytes are all there) ... *)
+(* ---------- a failed index dump (F9, repaired by commit e3d3ed5 of the code) ---------- *)
+
 Lemma dump_fails_recs b : b_recs (dump_fails b) = b_recs b.
-Proof. unfold dump_fails. destruct (b_ondisk b); reflexivity. Qed.
+Proof. reflexivity. Qed.
 
-Lemma recs_map_closed (f : blob -> blob) (l : list (option blob)) :
-  (forall b, b_recs (f b) = b_recs b) ->
-  flat_map b_recs (flat_map (fun o => match o with Some b => [b] | None => [] end)
-                            (map (fun o => match o with Some b => Some (f b) | None => None end) l))
-  = flat_map b_recs (flat_map (fun o => match o with Some b => [b] | None => [] end) l).
+Lemma map_slots_id (id : N) (l : list (option blob)) :
+  map (fun o => match o with
+                | Some b => Some (if b_id b =? id then dump_fails b else b)
+                | None => None end) l = l.
 Proof.
-  intros Hf. induction l as [|[b|] l IH]; cbn [map flat_map app]; [reflexivity| |exact IH].
-  rewrite Hf, IH. reflexivity.
+  induction l as [|[b|] l IH]; cbn [map]; [reflexivity| |rewrite IH; reflexivity].
+  rewrite IH. unfold dump_fails. destruct (b_id b =? id); reflexivity.
 Qed.
 
+(* the storage is as it was: the blob is still closed, its index still in memory, no index file *)
+Lemma dump_fails_on_id s id : dump_fails_on s id = s.
+Proof. unfold dump_fails_on. rewrite map_slots_id. destruct s; reflexivity. Qed.
+
+(* a failed index dump leaves the log intact (the bytes are all there) ... *)
 Lemma dump_failure_keeps_log s id : abs (dump_fails_on s id) = abs s.
+Proof. rewrite dump_fails_on_id. reflexivity. Qed.
+
+(* ... and every read answers as before: the fault is contained *)
+Lemma dump_failure_contained s id k :
+  get_latest_entry (dump_fails_on s id) k None = get_latest_entry s k None /\ abs (dump_fails_on s id) = abs s.
+Proof. rewrite dump_fails_on_id. split; reflexivity. Qed.
+
+Lemma dump_failure_reads s id k meta :
+  get_latest_entry (dump_fails_on s id) k meta = get_latest_entry s k meta /\
+  read_all (dump_fails_on s id) k = read_all s k /\ read_all_dm (dump_fails_on s id) k = read_all_dm s k.
+Proof. rewrite dump_fails_on_id. repeat split; reflexivity. Qed.
+
+(* ---------- a failed fsync in close_active_blob (F15, repaired by commit 20e4a83 of the code) ---------- *)
+
+Lemma close_fsync_failure_contained s : close_active_fsync_fails s = s.
+Proof. reflexivity. Qed.
+
+Lemma close_fsync_failure_reads s k meta :
+  get_latest_entry (close_active_fsync_fails s) k meta = get_latest_entry s k meta /\
+  abs (close_active_fsync_fails s) = abs s.
+Proof. split; reflexivity. Qed.
+
+(* ---------- a failed blob creation while the worker rotates (F1, repaired by commit 62103db of the code) ---------- *)
+
+(* one blob id is used up, nothing else: log, reads and the worker are as before, and the ids stay fresh *)
+Lemma rotation_failure_abs s : abs (rotation_create_fails s) = abs s.
+Proof. reflexivity. Qed.
+
+Lemma rotation_failure_reads s k meta :
+  get_latest_entry (rotation_create_fails s) k meta = get_latest_entry s k meta /\
+  read_all (rotation_create_fails s) k = read_all s k /\ read_all_dm (rotation_create_fails s) k = read_all_dm s k.
+Proof. repeat split; reflexivity. Qed.
+
+Lemma rotation_failure_alive s : s_alive (rotation_create_fails s) = s_alive s.
+Proof. reflexivity. Qed.
+
+Lemma rotation_failure_IdsOk s : IdsOk s -> IdsOk (rotation_create_fails s).
 Proof.
-  unfold abs, blobs_in_order, dump_fails_on, closed_blobs. cbn [s_active s_closed upd_closed].
-  rewrite !flat_map_app. f_equal.
-  apply (recs_map_closed (fun b => if b_id b =? id then dump_fails b else b)).
-  intros b. destruct (b_id b =? id); [apply dump_fails_recs|reflexivity].
+  intros [Hinc Hlt]. split; [exact Hinc|].
+  intros Ho b Hb. change (blobs_in_order (rotation_create_fails s)) with (blobs_in_order s) in Hb.
+  change (s_open (rotation_create_fails s)) with (s_open s) in Ho.
+  change (s_next (rotation_create_fails s)) with (s_next s + 1).
+  specialize (Hlt Ho b Hb). lia.
 Qed.
+
+Lemma rotation_failure_Inv K s : Inv K s -> Inv K (rotation_create_fails s).
+Proof.
+  intros (Hb & Hi & Hn). split; [exact Hb|]. split; [apply rotation_failure_IdsOk, Hi|exact Hn].
+Qed.
+
+Lemma rotation_failure_contained s k :
+  abs (rotation_create_fails s) = abs s /\
+  get_latest_entry (rotation_create_fails s) k None = get_latest_entry s k None /\
+  s_alive (rotation_create_fails s) = s_alive s /\
+  (IdsOk s -> IdsOk (rotation_create_fails s)).
+Proof. repeat split; try reflexivity; apply rotation_failure_IdsOk; assumption. Qed.
+
+(* ---------- computed, on a concrete history ---------- *)
 
 Definition f_cfg : config := {| c_dup := true; c_maxrec := 1000; c_maxsize := 1000000 |}.
 Definition f_hist : list op := [OOpen false; OWrite 1 7 None 8 5 1; OWrite 2 7 None 8 5 2].
 
-(* ... but REFUTES containment (finding F9): the acknowledged records of that blob are no longer served *)
-Lemma dump_failure_loses_records :
+(* the blob 0 is closed with its index still in memory, then its dump fails: the acknowledged record is still
+   served, as the log says it must be (before commit e3d3ed5 of the code the read answered NotFound: F9) *)
+Lemma dump_failure_keeps_records :
   let s := fst (step 4 f_cfg (reach 4 f_cfg f_hist) OCloseActive) in   (* closed, index still in memory *)
   get_latest_entry s 1 None = Found (mk_rec 1 7 false None 8 5 1) /\
-  get_latest_entry (dump_fails_on s 0) 1 None = NotFound /\
+  get_latest_entry (dump_fails_on s 0) 1 None = Found (mk_rec 1 7 false None 8 5 1) /\
   spec_read (abs (dump_fails_on s 0)) 1 = Found (mk_rec 1 7 false None 8 5 1).
 Proof. vm_compute. repeat split; reflexivity. Qed.
 
-(* REFUTATION (finding F15): a failing fsync inside close_active_blob drops the whole active blob *)
-Lemma close_fsync_failure_loses_blob :
+(* the fsync inside close_active_blob fails: the blob is still there, still active, and the record is served
+   (before commit 20e4a83 of the code the read answered NotFound and the log was empty: F15) *)
+Lemma close_fsync_failure_keeps_blob :
   let s := reach 4 f_cfg f_hist in
   get_latest_entry s 2 None = Found (mk_rec 2 7 false None 8 5 2) /\
-  get_latest_entry (close_active_fsync_fails s) 2 None = NotFound /\ abs (close_active_fsync_fails s) = [].
+  get_latest_entry (close_active_fsync_fails s) 2 None = Found (mk_rec 2 7 false None 8 5 2) /\
+  abs (close_active_fsync_fails s) = abs s /\ length (abs (close_active_fsync_fails s)) = 2%nat /\
+  s_active (close_active_fsync_fails s) = s_active s.
 Proof. vm_compute. repeat split; reflexivity. Qed.
+
+(* the creation of the next blob fails during a rotation: both records are served, the worker lives, and the
+   next write still lands (in the blob that stayed active) *)
+Lemma rotation_failure_keeps_going :
+  let s := rotation_create_fails (reach 4 f_cfg f_hist) in
+  get_latest_entry s 1 None = Found (mk_rec 1 7 false None 8 5 1) /\
+  get_latest_entry s 2 None = Found (mk_rec 2 7 false None 8 5 2) /\
+  s_alive s = true /\ s_next s = 2 /\
+  get_latest_entry (fst (step_q 4 f_cfg s (OWrite 3 7 None 8 5 3))) 3 None = Found (mk_rec 3 7 false None 8 5 3).
+Proof. vm_compute. repeat split; reflexivity. Qed.
+
+Print Assumptions append_failure_contained.
+Print Assumptions dump_failure_contained.
+Print Assumptions close_fsync_failure_contained.
+Print Assumptions rotation_failure_contained.
+Print Assumptions rotation_failure_Inv.
+Print Assumptions dump_failure_keeps_records.
+Print Assumptions close_fsync_failure_keeps_blob.
+Print Assumptions rotation_failure_keeps_going.
